@@ -14,7 +14,7 @@
    Text is a list of bytes (N). Lemmas at the end: civil round trip for every day,
    parse_rfc3339 (format_rfc3339nano t) = t for years 0..9999, date_from_string (date_string d) = d. *)
 From Coq Require Import String List Arith NArith ZArith Bool Lia ZifyN ZifyNat ZifyBool.
-From J5V.lib Require Import Radix JsonPrint.
+From J5V.lib Require Import Radix Json JsonPrint.
 Import ListNotations.
 Local Open Scope Z_scope.
 Local Open Scope bool_scope.
